@@ -6,7 +6,7 @@
 (3) mirror construction: shape rules over opposite_halfedge/opposite_halfface/halfedge()/halfface(),
     the halfface vertex/halfedge circulators, next/prev_halfedge_in_halfface and add_face(vertices)."""
 from .extract import AnalysisBroken
-from .facts import as_assign, estr, unwrap, walk
+from .facts import as_assign, estr, need_names, unwrap, walk
 from .readers import cmp_parts, strip_casts
 from .rule_g import single_assignment_init
 from .witness import compile_witness
@@ -311,6 +311,7 @@ def mirror(ck, fb):
                         wrap = True
             if not pos:
                 raise AnalysisBroken("C08: %s: no positive return found" % name)
+            need_names(f, ["it", "_heh"], None, "C08.step")
             if not any("it" in estr(x) for b, x in pos):
                 raise AnalysisBroken("C08: %s: neither the iterator form nor the modular index form recognised: %s" % (name, texts))
             verdict = step and wrap
